@@ -38,4 +38,10 @@ pub assume_specification<T>[ bool::then_some ](b: bool, t: T) -> (r: Option<T>)
 pub assume_specification<T, E>[ core::result::Result::<T, E>::unwrap_or ](r: core::result::Result<T, E>, default: T) -> (o: T)
     ensures o == (match r { Ok(t) => t, Err(_) => default });
 
+/// Option::copied / Option::or (not specified by this vstd)
+pub assume_specification<T: Copy>[ Option::<&T>::copied ](o: Option<&T>) -> (r: Option<T>)
+    ensures r == (match o { Some(t) => Some(*t), None => None::<T> });
+pub assume_specification<T>[ Option::<T>::or ](o: Option<T>, b: Option<T>) -> (r: Option<T>)
+    ensures r == (if o is Some { o } else { b });
+
 } // verus!
